@@ -270,7 +270,7 @@ Step ==
                               /\ UNCHANGED <<mem, status, why, result>>
             ELSE LET cf == IF I.callee.k = "reg" THEN RegVal(R, I.callee.r).f ELSE I.callee.f
                      g == prog.funcs[cf]
-                     byval == {r \in 1..Len(g.params) : g.params[r] = "blk16"}          \* blocks passed by value (at most one here)
+                     byval == {r \in 1..Len(g.params) : g.params[r] \in {"blk16", "blk1_16"}}          \* blocks passed by value (at most one here)
                      byref == {r \in 1..Len(g.params) : g.params[r] = "rblk16"}
                      blkbad == \E r \in byval \cup byref : args[r].t # "p" \/ ~InBlock(mem, args[r].b, args[r].o, 16)
                      bv == IF byval = {} THEN 0 ELSE CHOOSE r \in byval : TRUE IN
